@@ -33,9 +33,10 @@
  *   pfrej k pos T     print_to_with(s, pos, T "%lcZ", tuple($I(0x10FFFF))): T is written, then FormatError leaves
  *   scanw k pos       scan_from(s, pos, "%s", word) reading from the String at pos <= len (observer)
  *   len k | cstr k | cmp k T | cmps k j | eq k T | mem k T | hash k   (hash prints the value: the Lean side computes hash_data's model, C10)
- *   alias <assign|concat|append|print|rem|mem|cmp> <self|v<off>> T [pos]
+ *   alias <assign|concat|append|print|show|rem|mem|cmp> <self|v<off>> T [pos]
  *                     the call with an operand that IS the target (self) or the view $S(c_str(s) + off) into its buffer, on a fresh
- *                     String holding T, in a forked child; print = print_to(s, pos, "%s", obj).  assign / concat / append / print:
+ *                     String holding T, in a forked child; print = print_to(s, pos, "%s", obj), show = show_to(s, s, pos) (self only).
+ *                     assign / concat / append / print / show:
  *                     known finding KF-C16-alias-operand (sig=kf-c16-alias-operand; witness corpus/kf_c16_alias.ops; never generated);
  *                     rem / mem / cmp make no realloc and are checked against libc by value like any other call
  */
@@ -226,19 +227,20 @@ static int ref_whole(const char* fmt, PArg** a, int ns, const char* cls, char* o
 
 /* alias <what> <self|v<off>> <T> [pos]: the call what(s, obj) on a fresh s = new(String, $S(T)) whose operand obj IS s (`self`) or
  * is the stack String $S(c_str(s) + off) (`v<off>`, off <= len): the operand's bytes lie in the target's own allocation.
- * what = assign | concat | append | print (print_to(s, pos, "%s", obj)) | rem | mem | cmp.  Runs in a forked child (the library
+ * what = assign | concat | append | print (print_to(s, pos, "%s", obj)) | show (show_to(s, s, pos)) | rem | mem | cmp.  Runs in a forked child (the library
  * reads through a stale pointer after realloc: known finding KF-C16-alias-operand); the parent classifies:
  *     O alias <what> <src> ub                                  the child died / the sanitizer reported
  *     O alias <what> <src> <outcome> len= cap= s= fnv=         it returned (mutators and rem);  O alias mem|cmp <src> <value>
  * and the direct oracle compares a normal return with libc applied BY VALUE to the operand's text.  A sanitizer report or a
- * wrong text in assign / concat / append / print is `sig=kf-c16-alias-operand`; rem / mem / cmp make no realloc and must simply be
+ * wrong text in assign / concat / append / print / show is `sig=kf-c16-alias-operand`; rem / mem / cmp make no realloc and must simply be
  * right (`sig=str-alias-readonly`, an ordinary violation). */
 #define ALIAS_MAXT 512
 static void alias_op(const char* what, long off, const char* srct, const char* text, long pos) {
   int fd[2], er[2]; if (pipe(fd) || pipe(er)) return;
   size_t tl = strlen(text);
   const char* x = text + (off < 0 ? 0 : off);                   /* the operand's text when the call is made */
-  int mut = !strcmp(what, "assign") || !strcmp(what, "concat") || !strcmp(what, "append") || !strcmp(what, "print");
+  int mut = !strcmp(what, "assign") || !strcmp(what, "concat") || !strcmp(what, "append") || !strcmp(what, "print") || !strcmp(what, "show");
+  int haspos = !strcmp(what, "print") || !strcmp(what, "show");
   fflush(stdout);
   pid_t pid = fork();
   if (pid == 0) {
@@ -251,12 +253,13 @@ static void alias_op(const char* what, long off, const char* srct, const char* t
     else if (!strcmp(what, "append")) V_TRY(exc, append(s, obj));
     else if (!strcmp(what, "assign")) V_TRY(exc, assign(s, obj));
     else if (!strcmp(what, "print")) V_TRY(exc, ret = print_to(s, (int)pos, "%s", obj));
+    else if (!strcmp(what, "show")) V_TRY(exc, ret = show_to(obj, s, (int)pos));
     else if (!strcmp(what, "rem")) V_TRY(exc, rem(s, obj));
     else if (!strcmp(what, "mem")) { dprintf(fd[1], "%d\n", (int)mem(s, obj)); _exit(0); }
     else { dprintf(fd[1], "%d\n", sign(cmp(s, obj))); _exit(0); }
     char* v = ((struct String*)s)->val; size_t l = strlen(v), cap = v_alloc_size(v);
     char pre[40]; hexpre(v, l, pre);
-    if (exc) snprintf(oc, sizeof oc, "%s", v_exc_name(exc)); else if (!strcmp(what, "print")) snprintf(oc, sizeof oc, "ret=%d", ret); else strcpy(oc, "ok");
+    if (exc) snprintf(oc, sizeof oc, "%s", v_exc_name(exc)); else if (haspos) snprintf(oc, sizeof oc, "ret=%d", ret); else strcpy(oc, "ok");
     dprintf(fd[1], "%s len=%zu cap=%zu s=%s fnv=%016llx\n", oc, l, cap, pre, (unsigned long long)fnv64((unsigned char*)v, cap));
     for (size_t i = 0; i < l && i < 4 * ALIAS_MAXT; i++) dprintf(fd[1], "%02x", (unsigned char)v[i]);
     _exit(0);
@@ -272,6 +275,7 @@ static void alias_op(const char* what, long off, const char* srct, const char* t
   char call[96];
   if (off < 0) snprintf(call, sizeof call, "%s(s, s)", what); else snprintf(call, sizeof call, "%s(s, $S(c_str(s) + %ld))", what, off);
   if (!strcmp(what, "print")) { if (off < 0) snprintf(call, sizeof call, "print_to(s, %ld, \"%%s\", s)", pos); else snprintf(call, sizeof call, "print_to(s, %ld, \"%%s\", $S(c_str(s) + %ld))", pos, off); }
+  if (!strcmp(what, "show")) snprintf(call, sizeof call, "show_to(s, s, %ld)", pos);
   if (!WIFEXITED(st) || WEXITSTATUS(st) != 0) {
     O("alias %s %s ub", what, srct);
     I("alias %s len=%zu -> %s %d asan=%s", call, tl, WIFEXITED(st) ? "exit" : "signal", WIFEXITED(st) ? WEXITSTATUS(st) : WTERMSIG(st), kind);
@@ -287,15 +291,16 @@ static void alias_op(const char* what, long off, const char* srct, const char* t
     return;
   }
   /* the by-value result with libc */
-  static char want[4 * ALIAS_MAXT + 8]; int wret = 0;
+  static char want[4 * ALIAS_MAXT + 16]; int wret = 0;
   if (!strcmp(what, "assign")) strcpy(want, x);
   else if (!strcmp(what, "concat") || !strcmp(what, "append")) { strcpy(want, text); strcat(want, x); }
   else if (!strcmp(what, "print")) { memcpy(want, text, (size_t)pos); wret = (int)pos + snprintf(want + pos, sizeof want - (size_t)pos, "%s", x); }
+  else if (!strcmp(what, "show")) { memcpy(want, text, (size_t)pos); wret = (int)pos + (int)show_ref(text, want + pos); }
   else { strcpy(want, text); char* p = strstr(want, x); if (p) memmove(p, p + strlen(x), strlen(p + strlen(x)) + 1); }
   static char wanthex[8 * ALIAS_MAXT + 16]; size_t wl = strlen(want);
   for (size_t i = 0; i < wl; i++) sprintf(wanthex + 2 * i, "%02x", (unsigned char)want[i]); wanthex[2 * wl] = 0;
   const char* got = nl ? nl + 1 : "";
-  char expoc[48]; if (!strcmp(what, "print")) snprintf(expoc, sizeof expoc, "ret=%d ", wret); else strcpy(expoc, "ok ");
+  char expoc[48]; if (haspos) snprintf(expoc, sizeof expoc, "ret=%d ", wret); else strcpy(expoc, "ok ");
   if (strcmp(got, wanthex) != 0 || strncmp(ob, expoc, strlen(expoc)) != 0)
     X("sig=%s line=%zu what=%s on a String of %zu chars returned `%.40s` with a text of %zu chars, by value it is %s with %zu chars", sig, lineno, call, tl, ob, strlen(got) / 2, expoc, wl);
   I("alias %s len=%zu -> returned %.60s", call, tl, ob);
@@ -322,14 +327,15 @@ int main(int argc, char** argv) {
       /* alias <what> <self|v<off>> <T> [pos] */
       long off = -1, pos = 0, tl = nt >= 4 ? dehex(tok[3], t1) : -1; int ok = tl >= 0 && tl <= ALIAS_MAXT; char* e2;
       const char* w = nt >= 2 ? tok[1] : "";
-      int mut = !strcmp(w, "assign") || !strcmp(w, "concat") || !strcmp(w, "append") || !strcmp(w, "print");
+      int mut = !strcmp(w, "assign") || !strcmp(w, "concat") || !strcmp(w, "append") || !strcmp(w, "print") || !strcmp(w, "show");
       if (ok && !(mut || !strcmp(w, "rem") || !strcmp(w, "mem") || !strcmp(w, "cmp"))) ok = 0;
+      if (ok && !strcmp(w, "show") && strcmp(tok[2], "self")) ok = 0;
       if (ok && strcmp(tok[2], "self")) {
         if (tok[2][0] != 'v' || !tok[2][1] || strspn(tok[2] + 1, "0123456789") != strlen(tok[2] + 1) || strlen(tok[2]) > 8) ok = 0;
         else { off = strtol(tok[2] + 1, &e2, 10); if (off > tl) ok = 0; }
       }
       if (ok && mut && tl == 0) ok = 0;                            /* one NUL copied onto itself: undefined on paper only, not run */
-      if (ok && !strcmp(w, "print")) {
+      if (ok && (!strcmp(w, "print") || !strcmp(w, "show"))) {
         if (nt != 5 || !tok[4][0] || strspn(tok[4], "0123456789") != strlen(tok[4]) || strlen(tok[4]) > 8) ok = 0;
         else { pos = strtol(tok[4], &e2, 10); if (pos > tl) ok = 0; }
       } else if (ok && nt != 4) ok = 0;
